@@ -47,7 +47,7 @@ theorem unknown_functions_not_tenant : ∀ fn ∈ fns, fn.known = false → isTe
     skeletons of the structurally translated primitives are the reviewed ones (AST hashes). -/
 theorem hand_modelled_code_is_the_reviewed_code : shapes = [
     ("MembersController.delete", "df92c8687a99516d"),
-    ("MembersController.post", "be0e0f8f0f69fdc1"),
+    ("MembersController.post", "dbab1feed1a01d73"),
     ("MembersController.put", "923b8bb6c788f6d2"),
     ("_get_criterion", "a6b2d6b1a1f05d85"),
     ("create_resource_member", "e1e232c9de7f1033"),
@@ -165,116 +165,108 @@ example : ∃ fn ∈ fns, fn.name = "get_workflow_definition" ∧ fn.known = tru
 
 /-! ## Write protection -/
 
-/-- user-reachable mutators whose lookup is NOT a secure query -/
-def insecureLookupMutators : List String := ["delete_event_trigger"]
-
-/-- table fact: `delete_event_trigger` is the only user-reachable mutator of a tenant table that
-    looks its row up with a plain `model_query`. -/
+/-- table fact: every user-reachable mutator of a tenant table looks its row up through the
+    secure query (at most with the admin / explicit `insecure` override). -/
 theorem reachable_mutators_lookup :
     ∀ fn ∈ fns, fn.known = true → isTenant fn = true → fn.reachable = true → fn.kind.isMut = true →
-      fn.name ∉ insecureLookupMutators → fn.read.safe = true := by
+      fn.read.safe = true := by
   decide +kernel
 
 /-- "A non-admin project can never ... update, delete ... a private resource of another project":
-    a user-reachable update / delete / bulk delete / create-or-update (except the named one) leaves
-    every row that is not visible to the non-admin caller in the table, unchanged. -/
+    a user-reachable update / delete / bulk delete / create-or-update leaves every row that is not
+    visible to the non-admin caller in the table, unchanged.  FULL statement (it was
+    `private_write_protection` with `delete_event_trigger` excluded before the fix). -/
 theorem private_write_protection (fn : FnInfo) (hfn : fn ∈ fns) (hk : fn.known = true)
     (ht : isTenant fn = true) (hreach : fn.reachable = true) (hkind : fn.kind.isMut = true)
-    (hx : fn.name ∉ insecureLookupMutators)
     (db : Db) (a : Actor) (args : Args) (hna : a.isAdmin = false) (hins : args.insecure = false)
     (r : Resource) (hr : r ∈ db.resources) (hv : ¬ Visible db a r) :
     r ∈ (run fn db a args).2.resources :=
   mutation_confined secureSpec ownerSpec forcingSpec secure_spec_good fn db a args ht
-    (reachable_mutators_lookup fn hfn hk ht hreach hkind hx) hna hins r hr hv
+    (reachable_mutators_lookup fn hfn hk ht hreach hkind) hna hins r hr hv
 
-/-- the entry of `delete_event_trigger` in the generated table -/
+/-- the entry of `delete_event_trigger` in the generated table (after the fix) -/
 def deleteEventTriggerInfo : FnInfo :=
   { name := "delete_event_trigger", model := "EventTrigger", kind := .delete, key := .id,
-    read := .insecure, mutn := .delete, bulk := true, ownerCheck := false, notFound := true,
-    reachable := true, known := true }
+    read := .admin, mutn := .delete, bulk := false, ownerCheck := true, sysCheck := true,
+    notFound := true, reachable := true, known := true }
 
-/-- FINDING (kind db-api-private-foreign-write): the statement above is false without the
-    exclusion — `delete_event_trigger` deletes by id through `model_query`, so at the db-api a
-    non-admin deletes another project's PRIVATE event trigger. -/
-theorem private_write_protection_full_fails :
-    ¬ (∀ fn ∈ fns, fn.known = true → isTenant fn = true → fn.reachable = true → fn.kind.isMut = true →
-        ∀ (db : Db) (a : Actor) (args : Args), a.isAdmin = false → args.insecure = false →
-        ∀ r ∈ db.resources, ¬ Visible db a r → r ∈ (run fn db a args).2.resources) := by
-  intro h
-  let r0 : Resource := { rtype := "EventTrigger", id := 1, name := "t", project := 1, scope := .priv,
-                         isSystem := false, data := 0 }
-  have := h deleteEventTriggerInfo (by decide +kernel) rfl (by decide +kernel) rfl rfl
-    { resources := [r0], members := [] } { project := 2, isAdmin := false } { key := .byId 1 } rfl rfl
-    r0 (by simp) (by
-      intro hv
-      rcases hv with hv | hv | ⟨tag, ht, _⟩
-      · exact absurd hv (by decide)
-      · exact absurd hv (by decide)
-      · have hn : shareTag "EventTrigger" = none := by decide +kernel
-        have ht' : shareTag "EventTrigger" = some tag := ht
-        rw [hn] at ht'
-        cases ht')
-  revert this
+def regressionTrigger : Resource :=
+  { rtype := "EventTrigger", id := 1, name := "t", project := 1, scope := .priv,
+    isSystem := false, data := 0 }
+
+/-- REGRESSION (former witness of `private_write_protection_full_fails`): another project's
+    delete of a PRIVATE event trigger is "not found" and leaves it in place. -/
+theorem regression_delete_private_event_trigger :
+    deleteEventTriggerInfo ∈ fns ∧
+    run deleteEventTriggerInfo { resources := [regressionTrigger], members := [] }
+      { project := 2, isAdmin := false } { key := .byId 1 }
+      = (.notFound, { resources := [regressionTrigger], members := [] }) := by
   decide +kernel
 
 /-- mutators protected by `check_db_obj_access` on the loaded row -/
 def guarded (fn : FnInfo) : Bool := fn.ownerCheck && !fn.bulk
 
+/-- table fact: EVERY user-reachable mutator of a tenant table calls check_db_obj_access /
+    check_db_obj_owner on the loaded row before its first mutation and mutates that row only. -/
+theorem reachable_mutators_guarded :
+    ∀ fn ∈ fns, fn.known = true → isTenant fn = true → fn.reachable = true → fn.kind.isMut = true →
+      guarded fn = true ∧ (fn.kind = .update ∨ fn.kind = .delete ∨ fn.kind = .createOrUpdate) := by
+  decide +kernel
+
 /-- "Public resources and workflows shared through an accepted membership ... can be changed or
-    deleted only by their owner or an admin": for the functions that call check_db_obj_access before
-    their first mutation, a non-admin caller changes or deletes only rows of its own project — for
-    every database, key and argument (restriction of the full statement to `guarded` functions). -/
-theorem write_protection_partial (fn : FnInfo) (_hfn : fn ∈ fns) (hg : guarded fn = true)
-    (hkind : fn.kind = .update ∨ fn.kind = .delete ∨ fn.kind = .createOrUpdate)
+    deleted only by their owner or an admin": FULL statement — for every user-reachable mutator of a
+    tenant table, a non-admin caller changes or deletes only rows of its own project, for every
+    database, key and argument. -/
+theorem write_protection (fn : FnInfo) (hfn : fn ∈ fns) (hk : fn.known = true)
+    (ht : isTenant fn = true) (hreach : fn.reachable = true) (hkind : fn.kind.isMut = true)
     (db : Db) (a : Actor) (args : Args) (hna : a.isAdmin = false)
     (r : Resource) (hr : r ∈ db.resources) (hp : r.project ≠ a.project) :
     r ∈ (run fn db a args).2.resources := by
+  obtain ⟨hg, hkd⟩ := reachable_mutators_guarded fn hfn hk ht hreach hkind
   simp only [guarded, Bool.and_eq_true, Bool.not_eq_true'] at hg
-  exact mutation_guarded secureSpec ownerSpec forcingSpec owner_spec_good fn db a args hg.1 hg.2 hkind
+  exact mutation_guarded secureSpec ownerSpec forcingSpec owner_spec_good fn db a args hg.1 hg.2 hkd
     hna r hr hp
 
-/-- which user-reachable mutators of tenant tables are guarded — exactly these five. -/
+/-- the guarded user-reachable mutators — all twenty. -/
 theorem guarded_reachable_mutators :
     (fns.filter fun fn => fn.known && isTenant fn && fn.reachable && fn.kind.isMut && guarded fn).map (·.name)
-      = ["update_workflow_definition", "create_or_update_workflow_definition",
-         "delete_workflow_definition", "update_workflow_execution", "delete_cron_trigger"] := by
-  decide +kernel
-
-/-- FINDINGS (kind db-api-no-owner-check, one per function): the user-reachable mutators of tenant
-    tables WITHOUT the owner check are exactly these.  Each lets another project change or delete a
-    public (or, for workbooks, shared) row.  A function joining or leaving this list breaks this
-    theorem. -/
-theorem unguarded_reachable_mutators_exact :
-    (fns.filter fun fn => fn.known && isTenant fn && fn.reachable && fn.kind.isMut && !guarded fn).map (·.name)
-      = ["update_workbook", "delete_workbook", "update_code_source",
+      = ["update_workbook", "delete_workbook", "update_workflow_definition",
+         "create_or_update_workflow_definition", "delete_workflow_definition", "update_code_source",
          "delete_code_source", "update_dynamic_action_definition", "delete_dynamic_action_definition",
          "update_action_definition", "create_or_update_action_definition", "delete_action_definition",
-         "delete_action_execution", "delete_workflow_execution", "update_environment",
-         "delete_environment", "update_event_trigger", "delete_event_trigger"] := by
+         "delete_action_execution", "update_workflow_execution", "delete_workflow_execution",
+         "delete_cron_trigger", "update_environment", "delete_environment", "update_event_trigger",
+         "delete_event_trigger"] := by
   decide +kernel
 
-/-- the entry of `delete_workbook` in the generated table -/
+/-- no user-reachable mutator of a tenant table is left without the owner check (the 15 findings
+    `db-api-no-owner-check` are fixed; a function joining this list breaks this theorem). -/
+theorem unguarded_reachable_mutators_exact :
+    (fns.filter fun fn => fn.known && isTenant fn && fn.reachable && fn.kind.isMut && !guarded fn).map (·.name)
+      = [] := by
+  decide +kernel
+
+/-- the entry of `delete_workbook` in the generated table (after the fix) -/
 def deleteWorkbookInfo : FnInfo :=
-  { name := "delete_workbook", model := "Workbook", kind := .delete, key := .name, read := .secure,
-    mutn := .delete, bulk := true, ownerCheck := false, notFound := true, reachable := true,
-    known := true }
+  { name := "delete_workbook", model := "Workbook", kind := .delete, key := .name, read := .admin,
+    mutn := .delete, bulk := false, ownerCheck := true, sysCheck := true, notFound := true,
+    reachable := true, known := true }
 
-/-- The full-strength statement is FALSE of the current code: another project deletes a public
-    workbook (witness; replayed on the real db-api by the `access` stream). -/
-theorem write_protection_full_fails :
-    ¬ (∀ fn ∈ fns, fn.known = true → isTenant fn = true → fn.reachable = true → fn.kind.isMut = true →
-        ∀ (db : Db) (a : Actor) (args : Args), a.isAdmin = false → args.insecure = false →
-        ∀ r ∈ db.resources, r.project ≠ a.project → r ∈ (run fn db a args).2.resources) := by
-  intro h
-  let r0 : Resource := { rtype := "Workbook", id := 1, name := "wb", project := 1, scope := .pub,
-                         isSystem := false, data := 0 }
-  have := h deleteWorkbookInfo (by decide +kernel) rfl (by decide +kernel) rfl rfl
-    { resources := [r0], members := [] } { project := 2, isAdmin := false } { key := .byName "wb" }
-    rfl rfl r0 (by simp) (by decide)
-  revert this
+def regressionWorkbook : Resource :=
+  { rtype := "Workbook", id := 1, name := "wb", project := 1, scope := .pub,
+    isSystem := false, data := 0 }
+
+/-- REGRESSION (former witness of `write_protection_full_fails`): another project's delete of a
+    PUBLIC workbook is refused (NotAllowed) and leaves it in place. -/
+theorem regression_delete_public_workbook :
+    deleteWorkbookInfo ∈ fns ∧
+    run deleteWorkbookInfo { resources := [regressionWorkbook], members := [] }
+      { project := 2, isAdmin := false } { key := .byName "wb" }
+      = (.notAllowed, { resources := [regressionWorkbook], members := [] }) := by
   decide +kernel
 
-example : ∃ fn ∈ fns, guarded fn = true ∧ fn.kind = .delete := by decide +kernel
+example : ∃ fn ∈ fns, fn.known = true ∧ isTenant fn = true ∧ fn.reachable = true ∧ fn.kind.isMut = true := by
+  decide +kernel
 
 /-! ## New rows -/
 
@@ -295,8 +287,8 @@ theorem unhooked_models : forcingSpec.unhooked = ["EventTrigger"] := by decide +
 
 def createEventTriggerInfo : FnInfo :=
   { name := "create_event_trigger", model := "EventTrigger", kind := .create, key := .none,
-    read := .none, mutn := .create, bulk := false, ownerCheck := false, notFound := false,
-    reachable := true, known := true }
+    read := .none, mutn := .create, bulk := false, ownerCheck := false, sysCheck := false,
+    notFound := false, reachable := true, known := true }
 
 /-- FINDING (kind created-row-not-owned): the full statement is false — an event trigger created
     with an explicit `project_id` belongs to that project, not to the caller. -/
@@ -360,56 +352,41 @@ theorem share_delete_only_by_creator (db : Db) (a : Actor) (resId : Nat) (rt : S
 /-- the entry of `get_workflow_definition` (used by MembersController.post) -/
 def getWorkflowDefinitionInfo : FnInfo :=
   { name := "get_workflow_definition", model := "WorkflowDefinition", kind := .get, key := .ident,
-    read := .admin, mutn := .none, bulk := false, ownerCheck := false, notFound := true,
-    reachable := true, known := true }
+    read := .admin, mutn := .none, bulk := false, ownerCheck := false, sysCheck := false,
+    notFound := true, reachable := true, known := true }
 
 theorem get_workflow_definition_entry : getWorkflowDefinitionInfo ∈ fns := by decide +kernel
 
-/-- MembersController.post as modelled -/
+/-- MembersController.post as modelled (with the owner check of the fix) -/
 abbrev shareOp (db : Db) (a : Actor) (resId member : Nat) : Outcome × Db :=
-  share secureSpec getWorkflowDefinitionInfo db a resId member
+  share secureSpec ownerSpec getWorkflowDefinitionInfo db a resId member
 
-/-- FINDING (kind accepted-member-can-reshare): "only the owner can create the share" is false —
-    an accepted member of a private workflow shares it onward to a third project. -/
-theorem share_only_owner_full_fails :
-    ¬ (∀ (db : Db) (a : Actor) (resId member : Nat), a.isAdmin = false →
-        (shareOp db a resId member).1 = .done →
-        ∃ r ∈ db.resources, r.id = resId ∧ r.project = a.project) := by
-  intro h
-  let r0 : Resource := { rtype := "WorkflowDefinition", id := 1, name := "wf", project := 1,
-                         scope := .priv, isSystem := false, data := 0 }
-  let m0 : Member := { resId := 1, resType := "workflow", owner := 1, member := 2, status := .accepted }
-  have := h { resources := [r0], members := [m0] } { project := 2, isAdmin := false } 1 3 rfl
-    (by decide +kernel)
-  revert this
-  decide +kernel
-
-/-- the restriction that holds: a non-admin who successfully shares a workflow either owns it or
-    holds an accepted membership of it (never a stranger, never a public workflow). -/
-theorem share_only_owner_partial (db : Db) (a : Actor) (resId member : Nat) (hna : a.isAdmin = false)
+/-- "only the owner can create the share": FULL statement — a non-admin who successfully shares a
+    workflow owns it, and it is private. -/
+theorem share_only_owner (db : Db) (a : Actor) (resId member : Nat) (hna : a.isAdmin = false)
     (h : (shareOp db a resId member).1 = .done) :
-    ∃ r ∈ db.resources, r.id = resId ∧ r.scope = .priv ∧
-      (r.project = a.project ∨ SharedWith db a.project r) := by
+    ∃ r ∈ db.resources, r.id = resId ∧ r.scope = .priv ∧ r.project = a.project := by
   unfold shareOp share at h
   split at h
   · cases h
   · rename_i r hr
     have hmem := List.mem_of_mem_head? hr
-    obtain ⟨h1, h2, h3⟩ := cands_visible secureSpec secure_spec_good getWorkflowDefinitionInfo db a
-      { key := .byId resId } (by decide +kernel) rfl hna rfl r hmem
+    obtain ⟨h1, _, _⟩ := mem_cands hmem
     have hid : r.id = resId := by
       unfold cands at hmem
       simp only [List.mem_filter, Bool.and_eq_true] at hmem
       have := hmem.2.1.2
       simpa [matchesKey, getWorkflowDefinitionInfo] using this
-    by_cases hs : r.scope = .priv
-    · refine ⟨r, h1, hid, hs, ?_⟩
-      rcases h3 with h3 | h3 | h3
-      · exact Or.inl h3
-      · rw [hs] at h3; cases h3
-      · exact Or.inr h3
-    · have : (r.scope != Scope.priv) = true := by simpa using hs
-      simp [this] at h
+    by_cases hp : r.project = a.project
+    · split at h
+      · rename_i e he
+        rcases ownerGuard_outcomes ownerSpec true a r e he with rfl | rfl <;> simp at h
+      · by_cases hs : r.scope = .priv
+        · exact ⟨r, h1, hid, hs, hp⟩
+        · have : (r.scope != Scope.priv) = true := by simpa using hs
+          simp [this] at h
+    · rw [ownerGuard_foreign ownerSpec owner_spec_good a r hp hna true] at h
+      simp at h
 
 def exampleWf : Resource :=
   { rtype := "WorkflowDefinition", id := 1, name := "wf", project := 1, scope := .priv,
@@ -417,5 +394,15 @@ def exampleWf : Resource :=
 
 example : (shareOp { resources := [exampleWf], members := [] } { project := 1, isAdmin := false } 1 3).1
     = .done := by decide +kernel
+
+def exampleAccepted : Member :=
+  { resId := 1, resType := "workflow", owner := 1, member := 2, status := .accepted }
+
+/-- REGRESSION (former witness of `share_only_owner_full_fails`): an accepted member who tries to
+    share the owner's private workflow onward is refused and no member row is added. -/
+theorem regression_accepted_member_cannot_reshare :
+    shareOp { resources := [exampleWf], members := [exampleAccepted] } { project := 2, isAdmin := false } 1 3
+      = (.notAllowed, { resources := [exampleWf], members := [exampleAccepted] }) := by
+  decide +kernel
 
 end Mistral.Props.C15
